@@ -311,6 +311,62 @@ def r12_5(ctx, fx):
            detail="inner polls %d, Pending exits %d; unguarded: %s" % (npolls, npend, [fn.path_sites(p) for _, p in bad]))
 
 
+def r12_6(ctx, fx):
+    """channel capacities: tokio's bounded channel panics for capacity 0, and the per-stream channels are created from the configured
+    `sync_channel_size` / `async_channel_size` at the moment a stream opens - inside the protocol task, which a panic takes down for
+    every peer.  Each capacity handed to `mpsc::channel` in the notification protocol is a positive constant or a field that
+    NotificationProtocol::new stores as `max(.., 1)` (or another provably positive form)."""
+    n = 0
+    fields = {}
+    nf = ctx.fn(fx, "protocol::notification::NotificationProtocol::new", "R12.6")
+    if nf is not None:
+        for nd, s_ in nf.aggregates(r"notification::NotificationProtocol$"):
+            f = dict(zip(s_["rv"].get("fields", []), s_["rv"]["ops"]))
+            for k_ in ("sync_channel_size", "async_channel_size"):
+                if k_ in f:
+                    fields[k_] = _positive(nf, fx, f[k_])
+    for key in sorted(fx.find(r"^protocol::notification::")):
+        fn = fx.fn(key)
+        for i, c in enumerate(fn.calls(r"mpsc::(bounded::)?channel$")):
+            n += 1
+            o = fn.origin(c.args[0])
+            m = re.search(r"\.(sync_channel_size|async_channel_size)$", o)
+            ok = _positive(fn, fx, c.args[0]) or (m is not None and fields.get(m.group(1), False))
+            ctx.ob("R12.6", "%s/channel#%d-capacity>=1" % (short(key), i), ok, site=fn.site(c.node), cfg=fx.cfg, detail="capacity origin %s; stored positive: %s" % (o, fields))
+    ctx.anchor("R12.6", "mpsc::channel call sites in the notification protocol", n, 2, cfg=fx.cfg)
+
+
+def _positive(fn, fx, o, depth=0):
+    if depth > 10:
+        return False
+    k = o.get("k")
+    if k is not None:
+        if "cdef" in k:
+            v = fx.const(k["cdef"])
+            return isinstance(v, int) and v >= 1
+        return isinstance(k.get("v"), int) and k["v"] >= 1
+    p = o.get("m") or o.get("c")
+    if not p or len(p) != 1:
+        return False
+    ds = fn.defs().get(p[0], [])
+    if not ds:
+        return False
+    for node, kind, pl in ds:
+        if kind == "call":
+            c = fn.call_at(node)
+            if re.search(r"num::NonZero(<.*>)?::get$", c.name):
+                continue
+            if re.search(r"cmp::max$|Ord>?::max$", c.name) and any(_positive(fn, fx, a, depth + 1) for a in c.args):
+                continue
+            if re.search(r"cmp::min$|Ord>?::min$", c.name) and all(_positive(fn, fx, a, depth + 1) for a in c.args):
+                continue
+            return False
+        if kind == "assign" and pl["rv"]["r"] in ("use", "cast") and _positive(fn, fx, pl["rv"]["o"], depth + 1):
+            continue
+        return False
+    return True
+
+
 def run(ctx):
     for cfg in ctx.configs():
         fx = ctx.facts(cfg)
@@ -319,6 +375,7 @@ def run(ctx):
             r12_2(ctx, fx)
             r12_4(ctx, fx)
             r12_5(ctx, fx)
+            r12_6(ctx, fx)
             # "none is skipped / no duplicate" also rests on the framed substream every notification travels through: the flush
             # completeness and stash discipline of Substream::poll_flush (rule R04.4, stated in rules/C04.py) is evaluated here as well
             import C04
